@@ -216,6 +216,140 @@ impl<R: Read> ChunkedChars<R> {
     }
 }
 
+/// Byte order of a UTF-16 stream, decided from the first two raw bytes.
+#[derive(Clone, Copy, PartialEq, Eq)]
+enum RawEncoding {
+    /// Fewer than two bytes seen so far.
+    Undecided,
+    /// No UTF-16 byte-order mark: nothing is tracked.
+    NotUtf16,
+    Utf16Le,
+    Utf16Be,
+}
+
+/// Sits between the caller's reader and the decoder and sees the RAW bytes.
+///
+/// - The input size limit is applied to the raw bytes: never more than `limit` bytes are handed
+///   on, and at most one byte beyond the limit is taken from the reader (to tell an input of
+///   exactly `limit` bytes from a longer one). The decoder in front of [`ChunkedChars`] shrinks
+///   UTF-16 input, so the count of decoded bytes alone would let about twice the limit through.
+/// - UTF-16 input (recognised by its byte-order mark) that ends inside a code unit or between
+///   the two halves of a surrogate pair is reported as an error, as a truncated UTF-8 sequence
+///   is by [`ChunkedChars`]. The decoder would replace the incomplete character with U+FFFD.
+struct RawGate<R: Read> {
+    inner: R,
+    limit: Option<usize>,
+    /// Raw bytes handed on so far.
+    pulled: usize,
+    /// The reader had a byte beyond the limit.
+    tripped: bool,
+    encoding: RawEncoding,
+    /// The first raw byte while the encoding is undecided.
+    first: u8,
+    /// First byte of a UTF-16 code unit whose second byte has not arrived yet.
+    half: Option<u8>,
+    /// The last complete UTF-16 code unit was a high surrogate.
+    high_pending: bool,
+}
+
+impl<R: Read> RawGate<R> {
+    fn new(inner: R, limit: Option<usize>) -> Self {
+        Self {
+            inner,
+            limit,
+            pulled: 0,
+            tripped: false,
+            encoding: RawEncoding::Undecided,
+            first: 0,
+            half: None,
+            high_pending: false,
+        }
+    }
+
+    /// Account for one raw byte handed on.
+    fn note(&mut self, b: u8) {
+        match self.encoding {
+            RawEncoding::Undecided => {
+                if self.pulled == 0 {
+                    self.first = b;
+                } else {
+                    self.encoding = match (self.first, b) {
+                        (0xFF, 0xFE) => RawEncoding::Utf16Le,
+                        (0xFE, 0xFF) => RawEncoding::Utf16Be,
+                        _ => RawEncoding::NotUtf16,
+                    };
+                }
+            }
+            RawEncoding::NotUtf16 => {}
+            RawEncoding::Utf16Le | RawEncoding::Utf16Be => match self.half.take() {
+                None => self.half = Some(b),
+                Some(a) => {
+                    let unit = if self.encoding == RawEncoding::Utf16Le {
+                        u16::from_le_bytes([a, b])
+                    } else {
+                        u16::from_be_bytes([a, b])
+                    };
+                    self.high_pending = (0xD800..=0xDBFF).contains(&unit);
+                }
+            },
+        }
+        self.pulled += 1;
+    }
+
+    /// The reader reported end of input.
+    fn at_end(&self) -> io::Result<usize> {
+        let utf16 = matches!(self.encoding, RawEncoding::Utf16Le | RawEncoding::Utf16Be);
+        if utf16 && (self.half.is_some() || self.high_pending) {
+            return Err(io::Error::new(
+                io::ErrorKind::UnexpectedEof,
+                "unexpected EOF in middle of UTF-16 code point",
+            ));
+        }
+        Ok(0)
+    }
+
+    fn too_large(limit: usize) -> io::Error {
+        io::Error::new(
+            io::ErrorKind::FileTooLarge,
+            format!("input size limit of {limit} bytes exceeded"),
+        )
+    }
+}
+
+impl<R: Read> Read for RawGate<R> {
+    fn read(&mut self, buf: &mut [u8]) -> io::Result<usize> {
+        if buf.is_empty() {
+            return Ok(0);
+        }
+        let mut want = buf.len();
+        if let Some(limit) = self.limit {
+            if self.tripped {
+                return Err(Self::too_large(limit));
+            }
+            want = want.min(limit - self.pulled);
+            if want == 0 {
+                // Everything the limit allows has been handed on: is there more?
+                let mut probe = [0u8; 1];
+                return match self.inner.read(&mut probe)? {
+                    0 => self.at_end(),
+                    _ => {
+                        self.tripped = true;
+                        Err(Self::too_large(limit))
+                    }
+                };
+            }
+        }
+        let n = self.inner.read(&mut buf[..want])?;
+        if n == 0 {
+            return self.at_end();
+        }
+        for &b in &buf[..n] {
+            self.note(b);
+        }
+        Ok(n)
+    }
+}
+
 /// Creates buffered input and returns the input, a reference to the variable holding the
 /// possible error, and the reader's account of the characters it delivered. We cannot
 /// otherwise later reach our ChunkedChars.
@@ -223,10 +357,11 @@ pub fn buffered_input_from_reader_with_limit<'a, R: Read + 'a>(
     reader: R,
     max_bytes: Option<usize>,
 ) -> (ReaderInput<'a>, ReaderInputError, Rc<ReaderTail>) {
-    // Auto-detect encoding (BOM or guess), decode to UTF-8 on the fly.
+    // Auto-detect encoding (BOM or guess), decode to UTF-8 on the fly. The gate in front of the
+    // decoder applies the size limit to the raw bytes and refuses truncated UTF-16 input.
     let decoder = DecodeReaderBytesBuilder::new()
         .encoding(None) // None = sniff BOM / use heuristics; set Some(encoding) to force
-        .build(reader);
+        .build(RawGate::new(reader, max_bytes));
 
     let error: ReaderInputError = Rc::new(RefCell::new(None));
 
